@@ -27,7 +27,7 @@ Inductive decision := CONTINUE | PAUSE | STOP.
 Inductive suggestion := SNew | SFrom (j : Z) | SResume (i : Z) | SNone.
 (* the program point a delete_checkpoint call comes from *)
 Inductive why := WStop | WCallback | WSpec | WStopAll.
-Inductive tstatus := Running | Paused | Stopped | Completed.
+Inductive tstatus := Running | Paused | Stopped | Completed | Failed.
 
 Inductive event :=
 | EDecision (i : Z) (d : decision)   (* scheduler.on_trial_result answered d for trial i *)
@@ -147,18 +147,20 @@ Record scheduler (S R G : Type) := {
   on_result : S -> Z -> R -> S * decision * option Z;  (* decision; Some j = "clone j" pushed *)
   suggest : S -> Z -> G -> S * suggestion;             (* Z = backend.new_trial_id() *)
   removables : S -> S * list Z;                        (* trials_checkpoints_can_be_removed() *)
+  on_error : S -> Z -> S;                              (* on_trial_error (job failed) *)
   spec_ok : S -> Z -> bool                             (* listed by terminator.paused_trials() *)
 }.
 Arguments on_result {S R G}. Arguments suggest {S R G}.
-Arguments removables {S R G}. Arguments spec_ok {S R G}.
+Arguments removables {S R G}. Arguments spec_ok {S R G}. Arguments on_error {S R G}.
 
 Record iter_in (R G : Type) := {
   reports : list (Z * R);   (* all new reports of this poll in the order of their time stamps *)
   completed : list Z;       (* trials whose job ended at this poll *)
+  failed : list Z;          (* trials whose job failed at this poll (possibly after reports of the same poll) *)
   sugg : list G;            (* one entry per scheduler.suggest call of _schedule_new_tasks *)
   spec_choice : list Z      (* trials picked by the speculative callback *)
 }.
-Arguments reports {R G}. Arguments completed {R G}. Arguments sugg {R G}. Arguments spec_choice {R G}.
+Arguments reports {R G}. Arguments completed {R G}. Arguments failed {R G}. Arguments sugg {R G}. Arguments spec_choice {R G}.
 
 Record tstate (S : Type) := { sst : S; be : backend; running : list Z; exhausted : bool }.
 Arguments sst {S}. Arguments be {S}. Arguments running {S}. Arguments exhausted {S}.
@@ -236,6 +238,8 @@ Section Tuner.
 
   Fixpoint mark_completed (b : backend) (l : list Z) : backend :=
     match l with [] => b | i :: r => mark_completed (set_status b i Completed) r end.
+  Fixpoint mark_failed (b : backend) (l : list Z) : backend :=
+    match l with [] => b | i :: r => mark_failed (set_status b i Failed) r end.
 
   (* one iteration of the while loop of Tuner.run; bool = an exception left the loop *)
   Definition iteration (st : tstate S) (it : iter_in R G) : tstate S * list event * bool :=
@@ -243,9 +247,15 @@ Section Tuner.
     (* the backend only returns what was asked for: trial_ids = running_trials_ids *)
     let rs := filter (fun r => mem_Z (fst r) run) (reports it) in
     let compl := filter (fun i => mem_Z i run) (completed it) in
-    let b0 := mark_completed (be st) compl in
+    (* a failed job: status "failed"; the tuner calls no backend method for it, unless the scheduler
+       answers STOP / PAUSE for a report of the same poll (then stop_trial / pause_trial as usual) *)
+    let fl := filter (fun i => mem_Z i run) (failed it) in
+    let b0 := mark_failed (mark_completed (be st) compl) fl in
     let '(s1, b1, done, ev1) := process_results (sst st) b0 [] compl rs in
-    let run1 := filter (fun i => negb (mem_Z i done) && negb (mem_Z i compl)) run in
+    (* second loop of _update_running_trials: on_trial_error for failed trials the scheduler has not
+       stopped/paused in this batch *)
+    let s1 := fold_left (on_error sch) (filter (fun i => negb (mem_Z i done)) fl) s1 in
+    let run1 := filter (fun i => negb (mem_Z i done) && negb (mem_Z i compl) && negb (mem_Z i fl)) run in
     if exhausted st then
       let '(s3, b3, ev3) := loop_end s1 b1 (spec_choice it) in
       ({| sst := s3; be := b3; running := run1; exhausted := true |}, ev1 ++ ev3, false)
@@ -297,6 +307,7 @@ Definition oracle_sched : scheduler unit (decision * option Z) suggestion :=
   {| on_result := fun _ _ r => (tt, fst r, snd r);
      suggest := fun _ _ g => (tt, g);
      removables := fun _ => (tt, []);
+     on_error := fun s _ => s;
      spec_ok := fun _ _ => true |}.
 
 (* oracle whose state is the stream of lists it returns from trials_checkpoints_can_be_removed *)
@@ -304,6 +315,7 @@ Definition oracle_sched_rm : scheduler (list (list Z)) (decision * option Z) sug
   {| on_result := fun s _ r => (s, fst r, snd r);
      suggest := fun s _ g => (s, g);
      removables := fun s => match s with [] => ([], []) | l :: r => (r, l) end;
+     on_error := fun s _ => s;
      spec_ok := fun _ _ => true |}.
 
 (* ==== layer 2a: promotion-type schedulers ======================================= *)
@@ -338,13 +350,15 @@ Definition promo_suggest (s : promo) (nid : Z) (g : option Z) : promo * suggesti
 Definition promo_sched : scheduler promo decision (option Z) :=
   {| on_result := promo_on_result; suggest := promo_suggest;
      removables := fun s => (s, []);
+     (* on_trial_error: the trial is cleaned up as stopped; it is not in a rung as paused *)
+     on_error := fun s i => {| p_active := remove_Z i (p_active s); p_paused := p_paused s |};
      spec_ok := fun s i => mem_Z i (p_paused s) |}.
 
 (* ==== layer 2b: synchronous Hyperband =========================================== *)
 (* A bracket: current rung = slots (trial id, metric) + first free position; the
    rungs above are given by (size, level). *)
 Record sbracket := {
-  b_cur : list (option Z * option Q);
+  b_cur : list (option Z * option (option Q));   (* metric: None = free/pending, Some None = NaN (failed) *)
   b_level : Z;
   b_free : nat;
   b_later : list (nat * Z);
@@ -426,23 +440,29 @@ Definition stable_sort (mx : bool) (l : list (Z * Q)) : list (Z * Q) :=
   let le := if mx then (fun a b => Qleb b a) else Qleb in
   fold_left (fun acc x => insert_by le x acc) l [].
 
-Fixpoint occupied (rung : list (option Z * option Q)) : list (Z * Q) :=
+Fixpoint occupied (rung : list (option Z * option (option Q))) : list (Z * option Q) :=
   match rung with
   | [] => []
   | (Some t, Some m) :: r => (t, m) :: occupied r
   | _ :: r => occupied r
   end.
 
-Definition top_list (mx : bool) (rung : list (Z * Q)) (new_len : nat) : list Z :=
-  map fst (firstn new_len (stable_sort mx rung)).
-Definition remaining_list (rung : list (Z * Q)) (top : list Z) : list Z :=
+Fixpoint valid_of (rung : list (Z * option Q)) : list (Z * Q) :=
+  match rung with [] => [] | (t, Some m) :: r => (t, m) :: valid_of r | (_, None) :: r => valid_of r end.
+Fixpoint invalid_of (rung : list (Z * option Q)) : list Z :=
+  match rung with [] => [] | (t, None) :: r => t :: invalid_of r | _ :: r => invalid_of r end.
+Definition top_list (mx : bool) (rung : list (Z * option Q)) (new_len : nat) : list Z :=
+  let valid := valid_of rung in
+  if Nat.leb new_len (length valid) then map fst (firstn new_len (stable_sort mx valid))
+  else map fst valid ++ firstn (new_len - length valid) (invalid_of rung).
+Definition remaining_list (rung : list (Z * option Q)) (top : list Z) : list Z :=
   filter (fun t => negb (mem_Z t top)) (map fst rung).
 
-Definition all_occupied (rung : list (option Z * option Q)) : bool :=
+Definition all_occupied (rung : list (option Z * option (option Q))) : bool :=
   forallb (fun sl => match snd sl with Some _ => true | None => false end) rung.
 
 (* SynchronousBracket.on_result (+ _promote_trials_at_rung_complete) *)
-Definition bracket_on_result (mx : bool) (b : sbracket) (pos : nat) (t : Z) (m : Q) : sbracket * option (list Z) :=
+Definition bracket_on_result (mx : bool) (b : sbracket) (pos : nat) (t : Z) (m : option Q) : sbracket * option (list Z) :=
   let cur := upd_nth (b_cur b) pos (Some t, Some m) in
   if Nat.leb (length cur) (b_free b) && all_occupied cur then
     match b_later b with
@@ -469,26 +489,36 @@ Fixpoint pending_of (l : list (Z * (nat * nat))) (i : Z) : option (nat * nat) :=
 Definition remove_pending (l : list (Z * (nat * nat))) (i : Z) :=
   filter (fun p => negb (Z.eqb (fst p) i)) l.
 
+(* scheduler._on_result((bracket_id, slot with trial id and metric)) + removal from pending *)
+Definition sync_deliver (s : sync) (i : Z) (k pos : nat) (m : option Q) : sync :=
+  let b := nth k (s_brs s) (new_bracket []) in
+  let '(b', notprom) := bracket_on_result (s_max s) b pos i m in
+  let brs := upd_nth (s_brs s) k b' in
+  let p := if Nat.eqb k (s_primary s) then advance_primary brs (s_primary s) (length brs) else s_primary s in
+  let s1 := {| s_tbl := s_tbl s; s_max := s_max s; s_brs := brs; s_primary := p;
+               s_pending := remove_pending (s_pending s) i;
+               s_rem := s_rem s ++ match notprom with Some l => l | None => [] end |} in
+  if Nat.eqb k (s_primary s) && b_done (nth p brs (new_bracket [])) then
+    let s' := create_bracket s1 in
+    {| s_tbl := s_tbl s'; s_max := s_max s'; s_brs := s_brs s'; s_primary := length (s_brs s1);
+       s_pending := s_pending s'; s_rem := s_rem s' |}
+  else s1.
+
 (* SynchronousHyperbandScheduler.on_trial_result; payload = (metric, resource) *)
 Definition sync_on_result (s : sync) (i : Z) (r : Q * Z) : sync * decision * option Z :=
   match pending_of (s_pending s) i with
   | None => (s, STOP, None)
   | Some (k, pos) =>
       let b := nth k (s_brs s) (new_bracket []) in
-      if Z.leb (b_level b) (snd r) then
-        let '(b', notprom) := bracket_on_result (s_max s) b pos i (fst r) in
-        let brs := upd_nth (s_brs s) k b' in
-        let p := if Nat.eqb k (s_primary s) then advance_primary brs (s_primary s) (length brs) else s_primary s in
-        let s1 := {| s_tbl := s_tbl s; s_max := s_max s; s_brs := brs; s_primary := p;
-                     s_pending := remove_pending (s_pending s) i;
-                     s_rem := s_rem s ++ match notprom with Some l => l | None => [] end |} in
-        let s2 := if Nat.eqb k (s_primary s) && b_done (nth p brs (new_bracket [])) then
-                    let s' := create_bracket s1 in
-                    {| s_tbl := s_tbl s'; s_max := s_max s'; s_brs := s_brs s'; s_primary := length (s_brs s1);
-                       s_pending := s_pending s'; s_rem := s_rem s' |}
-                  else s1 in
-        (s2, PAUSE, None)
+      if Z.leb (b_level b) (snd r) then (sync_deliver s i k pos (Some (fst r)), PAUSE, None)
       else (s, CONTINUE, None)
+  end.
+
+(* on_trial_error: a pending trial is reported with metric NaN *)
+Definition sync_on_error (s : sync) (i : Z) : sync :=
+  match pending_of (s_pending s) i with
+  | None => s
+  | Some (k, pos) => sync_deliver s i k pos None
   end.
 
 (* _suggest: the searcher always returns a configuration (payload unit) *)
@@ -510,7 +540,7 @@ Definition sync_removables (s : sync) : sync * list Z :=
 
 Definition sync_sched : scheduler sync (Q * Z) unit :=
   {| on_result := sync_on_result; suggest := sync_suggest; removables := sync_removables;
-     spec_ok := fun _ _ => false |}.
+     on_error := sync_on_error; spec_ok := fun _ _ => false |}.
 
 (* ==== layer 2c: population based training ======================================= *)
 Record pbt_trial := { pt_id : Z; pt_score : option Q; pt_last : Q; pt_stopped : bool }.
@@ -594,7 +624,8 @@ Definition pbt_suggest (fixed : bool) (p : pbt_prm) (s : pbt) (nid : Z) (choice 
 
 Definition pbt_sched_gen (fixed : bool) (p : pbt_prm) : scheduler pbt (Q * Q * Z) Z :=
   {| on_result := pbt_on_result p; suggest := pbt_suggest fixed p;
-     removables := fun s => (s, []); spec_ok := fun _ _ => false |}.
+     removables := fun s => (s, []); on_error := fun s _ => s;   (* a failed trial stays in the population *)
+     spec_ok := fun _ _ => false |}.
 (* the code as it is (after the fix) / as it was *)
 Definition pbt_sched := pbt_sched_gen true.
 Definition pbt_sched_unfixed := pbt_sched_gen false.
